@@ -293,6 +293,12 @@ class Ob:
         self.queries += 1; self.sat += 1
         self.cex.append({'ob': self.oid, 'label': label, 'role': role, 'model': model or {}, 'replay': None})
 
+    def shape(self, found, want, label, role, model=None):
+        """a required call occurs `found` times on an accepting path where `want` are expected: FEWER is an absent guard / effect (a counterexample,
+        exit 1); MORE means the code has a shape this obligation does not understand (the property may still hold): undecided (exit 2), never an alarm"""
+        if found < want: self.structural(label, role, model)
+        else: self.fail('unexpected shape (more calls than the obligation understands - undecided, not a violation): ' + label)
+
     def witness(self, eng, r, hyps, label='reach', timeout=90000):
         """vacuity guard: hyps ∧ pc must be satisfiable"""
         s = self._solver(eng, r, hyps, timeout)
